@@ -1970,14 +1970,15 @@ class QueryRetrieveServiceClass(ServiceClass):
                 LOGGER.info(msg)
 
                 # Update the C-STORE sub-operation result tracker
-                if store_status[0] == STATUS_FAILURE:
-                    store_results[1] += 1
-                    # Part 4, C.4.3.1.3.2
-                    _add_failed_instance(dataset)
-                elif store_status[0] == STATUS_WARNING:
+                if store_status[0] == STATUS_WARNING:
                     store_results[2] += 1
                 elif store_status[0] == STATUS_SUCCESS:
                     store_results[3] += 1
+                else:
+                    # Failure, or a status that is not valid for C-STORE
+                    store_results[1] += 1
+                    # Part 4, C.4.3.1.3.2
+                    _add_failed_instance(dataset)
 
                 store_results[0] -= 1
 
@@ -2378,14 +2379,15 @@ class QueryRetrieveServiceClass(ServiceClass):
                 LOGGER.info(msg)
 
                 # Update the C-STORE sub-operation result tracker
-                if store_status[0] == STATUS_FAILURE:
-                    store_results[1] += 1
-                    # Part 4, C.4.2.1.4.2
-                    _add_failed_instance(dataset)
-                elif store_status[0] == STATUS_WARNING:
+                if store_status[0] == STATUS_WARNING:
                     store_results[2] += 1
                 elif store_status[0] == STATUS_SUCCESS:
                     store_results[3] += 1
+                else:
+                    # Failure, or a status that is not valid for C-STORE
+                    store_results[1] += 1
+                    # Part 4, C.4.2.1.4.2
+                    _add_failed_instance(dataset)
 
                 store_results[0] -= 1
 
